@@ -18,6 +18,7 @@ class Protocol(Component):
     def init(self, sock=None, server=None, **kwargs):
         self.__server = server
         self.__sock = sock
+        self.__events = {}  # per connection: ids are only unique per connection
         self.__receive_event_firewall = kwargs.get('receive_event_firewall', None)
         self.__send_event_firewall = kwargs.get('send_event_firewall', None)
 
